@@ -365,6 +365,9 @@ def run_sink_case(case):
         if base:
             os.makedirs(base)
         dst = os.path.join(td, "out.bin")
+        if case.get("pre") == "old":
+            with open(dst, "wb") as f:       # the result of an earlier run: longer than anything written now, other bytes
+                f.write(bytes([200, 201, 202]) * 40)
         sink = MPUFileSink(dst, parts_base=base)
         parts = []
         pos = 0
